@@ -652,7 +652,7 @@ class UpgradeActionRecordUploadForUpgrade(UpgradeActionRecord):
                 VersionField(
                     data[3:3 + VersionField.VERSION_WITH_AUX_FIELD_LEN])
             self.firmware_description_string \
-                = py3dec_unic_bytes_fix(data[9:30])
+                = data[9:30].decode('latin-1')
             self.firmware_length = struct.unpack('<L', data[30:34])[0]
             self.firmware_image_data = data[34:(34 + self.firmware_length)]
             self.length += 31 + self.firmware_length
